@@ -17,8 +17,17 @@ pub struct V7Parser;
 
 impl V7Parser {
     pub fn parse(packet: &[u8]) -> Result<ParsedNetflow, NetflowParseError> {
+        Self::parse_slice(packet)
+            .map(|(remaining, result)| ParsedNetflow::new(remaining, result))
+    }
+
+    /// Same as `parse`, but hands back the unparsed tail as a slice of the input instead of
+    /// copying it (the chained-packet loop of `parse_bytes` only needs to know where it starts).
+    pub(crate) fn parse_slice(
+        packet: &[u8],
+    ) -> Result<(&[u8], NetflowPacket), NetflowParseError> {
         V7::parse(packet)
-            .map(|(remaining, v7)| ParsedNetflow::new(remaining, NetflowPacket::V7(v7)))
+            .map(|(remaining, v)| (remaining, NetflowPacket::V7(v)))
             .map_err(|e| {
                 NetflowParseError::Partial(PartialParse {
                     version: 7,
